@@ -2250,6 +2250,18 @@ as_expression() {
  */
 CPPType *CPPExpression::
 elevate_type(CPPType *t1, CPPType *t2) {
+  // Enumerators and const variables have type "T const"; cv-qualification
+  // plays no role in arithmetic, and an enum is promoted to its underlying
+  // type.
+  for (CPPType **t : {&t1, &t2}) {
+    while ((*t)->as_const_type() != nullptr) {
+      *t = (*t)->as_const_type()->_wrapped_around;
+    }
+    if ((*t)->as_enum_type() != nullptr) {
+      *t = (*t)->as_enum_type()->get_underlying_type();
+    }
+  }
+
   CPPSimpleType *st1 = t1->as_simple_type();
   CPPSimpleType *st2 = t2->as_simple_type();
 
